@@ -31,6 +31,8 @@ def exemplars(tier):
                 for ed in ("05", "07", "16", "17", "100", "308"):
                     if es == "e+" and ed in ("05", "07"):
                         continue
+                    if float(mant + es + ed) in (float("inf"), 0.0):
+                        continue  # beyond the range of doubles: repr of a finite float never writes it (timestamps are finite)
                     ex.append(mant + es + ed)
     seen, out = set(), []
     for x in ex:
